@@ -14,6 +14,8 @@ def gen_consts(v):
 # r<k> = return value of op k, d<k> = state dump after op k (per-port universe/priority/mode,
 # per-universe port and client lists, store contents), d = initial dump: property-determined.
 # c<k> = UniverseStore::m_deletion_candidates after op k: internal observable.
+# p<k> = priority value/mode per port: the property only bounds the value (d<k> carries a '!prio>max'
+# marker for that); the exact value is a correspondence detail, hence non-SPEC.  b<k>, f<k>: broker, prefs.
 SPEC_KEYS = ['d'] + ['r%d' % i for i in range(MAX_OPS)] + ['d%d' % i for i in range(MAX_OPS)]
 INTERNAL_KEYS = []
 
@@ -112,6 +114,11 @@ def mk_cfg(rng):
 
 
 def cfg_s(devs, ports):
+    # directed scenarios change port directions: keep the capability one the port class can have
+    # (BasicInputPort: STATIC=1 or FULL=2; BasicOutputPort: NONE=0 or FULL=2)
+    for pt in ports:
+        if pt[1] and pt[2] == 0: pt[2] = 1
+        if not pt[1] and pt[2] == 1: pt[2] = 0
     ds = ','.join(str(d) for d in devs) if devs else '-'
     ps = ','.join('%d:%s:%d:%s:%s:%s:%s:%s' % (d, 'i' if inp else 'o', cap, '.'.join(map(str, v)) if v else '-',
                                                  rl, pu, pp, pm)
